@@ -7,7 +7,7 @@ import mcfam
 import pymc
 import libfam
 from pymc import T, to_obj, LANGS, call_mc
-from common import pmap, MachineryError
+from common import pmap, MachineryError, exc_name
 from gen import P, Q, TR, FA, L0, M0
 
 
@@ -29,7 +29,7 @@ def fair_event(c):
             except BaseException as ex:
                 if type(ex).__name__ == 'CaseTimeout':
                     raise
-                return ('exc', type(ex).__name__, str(ex)[:100])
+                return ('exc', exc_name(ex), str(ex)[:100])
         out = mcfam.with_time_limit(run, 20.0)
     else:
         ev['logic'] = c['logic']
@@ -37,7 +37,7 @@ def fair_event(c):
         try:
             fo = mcfam.build_formula(c['logic'], T(c['f']), c.get('mode', 'obj'))
         except Exception as ex:
-            out = ('exc', 'construct:' + type(ex).__name__, str(ex)[:100])
+            out = ('exc', 'construct:' + exc_name(ex), str(ex)[:100])
         else:
             out = mcfam.with_time_limit(lambda: call_mc(c['logic'], k, fo, F=F), 20.0)
     ev['out'] = mcfam.project_result(out, idx)
